@@ -346,6 +346,7 @@ RULES = [
     ("C01-R3", "BFS queue discipline", r3),
     ("C01-R4", "recursive / top-level call arguments, base depth, every root visited", r4),
     ("C01-R5", "symlink gate, visited inodes, default root", r5),
+    ("C18-R3", "every directory is listed at most once when links are followed [shared with C18]", lambda ctx: __import__("c18").r3(ctx)),
 ]
 
 EXPLANATION = (
